@@ -24,14 +24,18 @@
 (*   M(t, e, c)    the meaning of the ORIGINAL integrand in environment e   *)
 (*                 below restriction context c in {"0", "+", "-"}           *)
 (*   P(t, c, d)    RestrictionPropagator AS CODED (one operator per         *)
-(*                 handler of ufl/algorithms/apply_restrictions.py), d =    *)
-(*                 "default restrictions are applied"; returns the rewritten*)
-(*                 term or <<"reject", why>>                                *)
+(*                 handler of ufl/algorithms/apply_restrictions.py) in mode *)
+(*                 d ("default": default restrictions applied, "none": just *)
+(*                 propagate, "check"); returns the rewritten term or       *)
+(*                 <<"reject", why>>                                        *)
 (*                                                                         *)
 (* The state machine builds terms bottom-up, one action per constructor    *)
 (* call (the store is the construction history, operands are earlier       *)
-(* entries or terminals), then Apply(d) runs the propagation.  The         *)
-(* invariants state the property for every term in the bound.              *)
+(* entries or the atoms of the instance), then Apply(d) runs the           *)
+(* propagation.  The invariants state the property for every term in the   *)
+(* bound.  The dump (DumpInv) hands term, mode, verdict, predicted result   *)
+(* structure and predicted values to the conformance check                  *)
+(* (vf/checks/c17.py), which replays them on the real code.                 *)
 (***************************************************************************)
 EXTENDS Integers, Sequences, FiniteSets, TLC, Json, CQ
 
